@@ -168,6 +168,13 @@ def partial_forwards_writer(prog: Program) -> List[Instance]:
                 if not isinstance(tgt, FuncInfo) or "write" not in tgt.param_names():
                     continue
                 passed = any(k.arg == "write" for k in n.keywords) or any(isinstance(a, ast.Name) and a.id == "write" for a in n.args[1:])
+                if not passed and any(k.arg is None for k in n.keywords):
+                    # partial(op, **opts): the writer may travel inside the options dict - followed one step
+                    via = any(isinstance(k.value, ast.Name) and any(
+                        isinstance(a_, ast.Assign) and any(isinstance(t_, ast.Name) and t_.id == k.value.id for t_ in a_.targets) and "write" in names_in(a_.value) for a_ in walk_own(fi.node)) for k in n.keywords if k.arg is None)
+                    out.append(Instance("R-FORWARD", f"{fi.qual}#partial:{tgt.name}:write", OK if via else UNDET,
+                                        "the writer is carried inside the options dict splatted into partial()" if via else "partial(.., **opts): contents of the options object not followed", fi.where(n)))
+                    continue
                 out.append(Instance("R-FORWARD", f"{fi.qual}#partial:{tgt.name}:write", OK if passed else BAD,
                                     f"partial({tgt.name}, ...) carries the writer" if passed else
                                     f"`{short(n, 60)}` builds the {tgt.name} operator without the `write` this function was given: with writes_per_chunk >= 2 two chunks that both started writing cannot be merged", fi.where(n)))
